@@ -6,6 +6,35 @@ import random
 import vcommon as vc
 
 
+def tlaps(chk):
+    """Unbounded part: TLAPS proves that the lexicographic order on member tuples (any length, integer components) is
+    irreflexive, transitive, asymmetric and decided at the first difference.  Tool trouble is noted, a failed
+    obligation is a verdict on the specification."""
+    import re, shutil, subprocess, tempfile, os
+    exe = shutil.which("tlapm")
+    if not exe:
+        chk.notes.append("tlapm not found: order laws only checked on the bounded grid")
+        return
+    tmp = tempfile.mkdtemp(prefix="tlaps_", dir=vc.OUT)
+    shutil.copy(os.path.join(vc.SPEC, "hashord", "tlaps", "LexOrderProof.tla"), tmp)
+    try:
+        p = subprocess.run([exe, "--cleanfp", "LexOrderProof.tla"], cwd=tmp, capture_output=True, text=True, timeout=600)
+        out = p.stdout + p.stderr
+        m = re.search(r"All (\d+) obligations? proved", out)
+        if m:
+            chk.notes.append("TLAPS: LexOrderProof.tla, all %s obligations proved (irreflexive, transitive, asymmetric, decided at the first difference; any tuple length)" % m.group(1))
+        elif re.search(r"obligations? failed", out):
+            pth = os.path.join(chk.out, "tlaps.txt")
+            open(pth, "w").write(out[-4000:])
+            chk.divergences.append(dict(where="model:LexOrderProof", observed="obligation failed", witness=None, detail="TLAPS could not prove an obligation of LexOrderProof.tla", replay=pth))
+        else:
+            chk.notes.append("TLAPS: tool problem (rc=%s), order laws only checked on the bounded grid" % p.returncode)
+    except subprocess.TimeoutExpired:
+        chk.notes.append("TLAPS timed out: order laws only checked on the bounded grid")
+    finally:
+        shutil.rmtree(tmp, ignore_errors=True)
+
+
 def run(chk, replay_path):
     exe = vc.build_driver("hash_driver", ["hash_driver.cpp"])
     r = vc.run_tlc("hashord/HashOrd", "hashord/MC_HashOrd.cfg", timeout=1500)
@@ -18,6 +47,7 @@ def run(chk, replay_path):
         raise vc.Infra("negative control: an incoherent hash function does not break lookups in the model (%s)" % r2["violated"])
     chk.notes.append("negative control: with hash functions that ignore equality the model violates FindsExactly")
     chk.exhaustive = True
+    tlaps(chk)
     rng = random.Random("%s/C16" % chk.seed)
     cases = []
     nruns = 6 if chk.tier == "quick" else 60
